@@ -36,7 +36,8 @@ def strategy():
         spec = draw(libsim.spec_strategy(max_contigs=3, max_mols=10, extras=draw(st.booleans()), max_cells=2,
                                          contig_classes=('small', 'small', 'large')))
         mode = draw(st.sampled_from(['single', 'multi']))
-        return {'spec': spec, 'run': {'method': spec['method'], 'mode': mode, 'threads': draw(st.integers(1, 3)),
+        # the status file is named after the output file: names ending in letters of 'bam', with dots, with 'bam' inside
+        return {'outname': draw(st.sampled_from(['out', 'out', 'run1b', 'sample.a', 'tagged_bam', 'm'])), 'spec': spec, 'run': {'method': spec['method'], 'mode': mode, 'threads': draw(st.integers(1, 3)),
                                       'pool': 'det', 'order': draw(st.lists(st.integers(0, 100), min_size=3, max_size=3)),
                                       'no_rejects': False}}
     return case()
@@ -126,7 +127,7 @@ def run_once(case, d, point, kind):
     """Runs the tagger with one injected failure. Returns (raised, status, counter)."""
     spec, run = case['spec'], case['run']
     bam_in = os.path.join(d, 'in.bam')
-    bam_out = os.path.join(d, 'out.bam')
+    bam_out = os.path.join(d, case.get('outname', 'out') + '.bam')
     for p in os.listdir(d):
         if p not in ('in.bam', 'in.bam.bai'):
             q = os.path.join(d, p)
@@ -183,7 +184,7 @@ def run_sort_failure(case, d, variant, contigs, records):
     output path). Returns (raised, status)."""
     spec, run = case['spec'], case['run']
     bam_in = os.path.join(d, 'in.bam')
-    bam_out = os.path.join(d, 'out.bam')
+    bam_out = os.path.join(d, case.get('outname', 'out') + '.bam')
     for p in os.listdir(d):
         if p not in ('in.bam', 'in.bam.bai'):
             q = os.path.join(d, p)
@@ -222,7 +223,7 @@ def run_sort_failure(case, d, variant, contigs, records):
 def output_valid(case, d, contigs, records, truth):
     """C05 oracle on d/out.bam; returns list of problems."""
     o = Outcome()
-    res = {'in': os.path.join(d, 'in.bam'), 'out': os.path.join(d, 'out.bam'), 'truth': truth, 'contigs': contigs,
+    res = {'in': os.path.join(d, 'in.bam'), 'out': os.path.join(d, case.get('outname', 'out') + '.bam'), 'truth': truth, 'contigs': contigs,
            'records': records, 'status': None}
     c05.compare({'spec': case['spec'], 'run': case['run']}, res, o)
     try:
@@ -298,7 +299,7 @@ def eval_case(case):
         # (argument mistakes); the status of the first run must not survive
         raised, status, _ = run_once(case, d, ('none', -1), 'exception')
         if status == SUCCESS:
-            bam_in, bam_out = os.path.join(d, 'in.bam'), os.path.join(d, 'out.bam')
+            bam_in, bam_out = os.path.join(d, 'in.bam'), os.path.join(d, case.get('outname', 'out') + '.bam')
             for label, extra in (('bad-method', None), ('region-start-without-end', ['-region_start', '5'])):
                 try:
                     if extra is None:
